@@ -222,7 +222,7 @@ Section fresh.
   Proof.
     intros IHv IHa cx.
     intros p src st v st' H. rewrite eval_v_S in H. destruct p as [| |al q|m|c args fl|t a0|ini tp a0|el a0|ini t cases dflt].
-      + injection H as <- <-. split; [lia|]. intros a Ha. auto.
+      + destruct (plain src); [|discriminate]. injection H as <- <-. split; [lia|]. intros a Ha. auto.
       + injection H as <- <-. split; [lia|]. intros a Ha. auto.
       + destruct (eval_v e M F f cx q src st) as [[r st1]| | | |] eqn:E; cbn [obind] in H; try discriminate.
         apply IHv in E as [M1 F1]. destruct al; injection H as <- <-.
